@@ -145,6 +145,11 @@ LawV(e) ==
   ELSE Clause(\E i, j \in DOMAIN e.results : i < j /\ ~SameBy(e.results[i], e.results[j], e.cmp), e.law)
        \cup Clause(~e.side, e.law \o "_Side")         \* a logged side condition of the law (e.g. "a DeprecationWarning was emitted")
 
+(* the upgraded annotation of every result parameter denotes what its plain annotation is (functions of the algebra drivers are eagerly annotated) *)
+UpgradedAnnV(e) ==
+  IF ~W("C10") \/ e.out.tag # "sig" \/ "uan" \notin DOMAIN e.out THEN {}
+  ELSE Clause(\E x \in DOMAIN e.out.ps : e.out.uan[x] # e.out.ps[x].an, "C10_UpgradedAnnotationDiffersFromAnnotation")
+
 Verdict(e) ==
   IF e.op = "law" THEN LawV(e)
   ELSE (CASE e.op = "merge" -> MergeV(e)
@@ -154,6 +159,7 @@ Verdict(e) ==
           [] e.op = "forwards" -> ForwardsV(e)
           [] OTHER -> {})
        \cup ProvV(e)
+       \cup UpgradedAnnV(e)
        \cup PureV(e)
        \cup (IF W("C15") THEN C15Fails(e.op, e.ins, e.out) ELSE {})
 =============================================================================
